@@ -6,6 +6,7 @@ extra = sys.argv[8] if len(sys.argv) > 8 else ""
 wave_origin = {
  "q": "independent sub-agent given only the property text and a scratch worktree (wave 17; told which mechanisms waves 1-16 used; the change had to be a fast path, cache or batch shortcut: lock-free fast paths, memoised entries not invalidated, bulk paths that differ from the single path in a corner, scratch buffers reused, 'skip if unchanged' keyed on too little)",
  "s": "independent sub-agent given only the property text and a scratch worktree (wave 19; told which mechanisms waves 1-18 used; the change had to move a responsibility between a caller and a callee (who locks, copies, resets, closes, checks, stamps, flushes, wakes) and honour it on all paths but one)",
+ "t": "independent sub-agent given only the property text and a scratch worktree (wave 20, four properties; told which mechanisms waves 1-19 used; the change had to concern settings that change while the object is in use: a setting read twice in one operation, a value derived from a setting and cached, a setting applied to one of two places, intermediate states of a reload)",
  "r": "independent sub-agent given only the property text and a scratch worktree (wave 18; told which mechanisms waves 1-17 used; the change had to sit at a size or growth boundary: buffer/chunk boundaries, exact multiples, rehash/growth/shrink thresholds, ring wrap-around, first/last element)",
 }[i[-1]]
 m = {"id": i, "property": prop, "origin": wave_origin + extra, "change": change, "needs_to_manifest": needs, "demonstration": demo,
